@@ -46,8 +46,9 @@ LEVEL_TEXT = (
     "of the batches begun before anybody saw the set on: in both real start-ups every kind of the first non-empty "
     "batch), pass_safe/detach_safe for every kind spawned so far; the unrestricted 'every indexed kind' is false of "
     "the code by design for kinds discovered later (late_kind_witness = finding F4). Beyond the property (liveness, "
-    "observations only): gate_can_open_partial (from every reachable Healthy state), gate_stuck_of_leak and two "
-    "reachable stuck states (failed indexing cycle + idle exit; watcher ended before LISTED). Three broken variants of "
+    "observations only): gate_can_open_iff (from a reachable state the gate can open iff no toggle is stranded; a failed "
+    "indexing cycle drops its toggle since kopf 58a504d), gate_stuck_of_leak and a reachable stuck state (a watcher that "
+    "ended before LISTED; not repaired: proposals/fix-C17N1). Three broken variants of "
     "the LTS refuted (about mutants, not the code). Tied to the code by differential runs of the real "
     "process_resource_event/indexers (D) and by trace acceptance of real adjust_tasks/spawn_missing_watchers/watcher/"
     "worker/ToggleSet start-ups — cluster-wide and namespaced — under virtual time (A). The retry/exclusion half of the "
@@ -80,9 +81,8 @@ THEOREMS = [
     ("Kopf.Props.C17", "Kopf.C17.Gate.pass_safe"),
     ("Kopf.Props.C17", "Kopf.C17.Gate.detach_safe"),
     ("Kopf.Props.C17", "Kopf.C17.Gate.ungated_only_after_ready"),
-    ("Kopf.Props.C17", "Kopf.C17.Gate.gate_can_open_partial"),
+    ("Kopf.Props.C17", "Kopf.C17.Gate.gate_can_open_iff"),
     ("Kopf.Props.C17", "Kopf.C17.Gate.gate_stuck_of_leak"),
-    ("Kopf.Props.C17", "Kopf.C17.Gate.gate_stuck_witness"),
     ("Kopf.Props.C17", "Kopf.C17.Gate.gate_stuck_dead_watcher_witness"),
     ("Kopf.Props.C17", "Kopf.C17.Gate.noBlocker_witness"),
     ("Kopf.Props.C17", "Kopf.C17.Gate.noKindToggle_witness"),
@@ -123,8 +123,9 @@ ASSUMPTIONS = [
     "decomposition theorems for the index bookkeeping and definitional for that table; a misreading of awakened/look-ahead "
     "would be caught by the D tie (real memory incl. retries/delayed/failure/started) and by the Python oracle only",
     "whether the gate ever opens is liveness and NOT checked by the oracle (C17's gate clause is safety): the failing "
-    "indexing cycle and the dying watcher are modelled (indexFail, die, leaked toggles), tied (corpus F3_*, N1_* and "
-    "~6%/~12% of generated start-ups) and proved stuck (gate_stuck_of_leak)",
+    "indexing cycle (indexFail: toggle dropped, counted as the attempt — kopf 58a504d) and the dying watcher (die, "
+    "leaked toggles) are modelled and tied (corpus F3_*, N1_* and ~6%/~12% of generated start-ups); a stranded toggle "
+    "is proved fatal (gate_stuck_of_leak)",
     "daemons/timers/change handlers are behind the same single wait_for(True) as @kopf.on.event handlers, which are what the gate runs observe",
 ]
 
@@ -725,8 +726,13 @@ async def run_gate_case(case: dict) -> dict:
                 labels.append(["listed", k, self.snap()])
             else:                                                   # a per-object toggle, by its worker
                 ro = cur_obj.get(asyncio.current_task())
-                if ro is not None:
+                if ro is not None and _indexed_in_cycle(labels, ro):
                     labels.append(["drop", ro[0], ro[1], self.snap()])
+                elif ro is not None:
+                    # kopf 58a504d: dropped in the `finally:` / the throttled branch although
+                    # index_resource did not return (raised, skipped, cancelled): the attempt counts
+                    obslog.append(("index-attempt-failed", ro[0], ro[1]))
+                    labels.append(["indexFail", ro[0], ro[1], self.snap()])
 
         async def wait_for(self, state_: bool) -> None:
             ro = cur_obj.get(asyncio.current_task())
@@ -738,6 +744,15 @@ async def run_gate_case(case: dict) -> dict:
                 labels.append(["pass", ro[0], ro[1], self.snap()])
 
     gate = LoggedToggleSet(all)
+
+    def _indexed_in_cycle(ls: list, ro: tuple[str, str]) -> bool:
+        # has index_resource returned in this worker's current cycle?
+        for l in reversed(ls):
+            if l[0] in ("arrive", "again", "indexFail") and l[1] == ro[0] and l[2] == ro[1]:
+                return False
+            if l[0] == "index" and l[1] == ro[0] and l[2] == ro[1]:
+                return True
+        return False
 
     def _dropped_label(ls: list, ro: tuple[str, str]) -> bool:
         # has this worker's current cycle already logged its `drop`?
@@ -874,10 +889,12 @@ async def run_gate_case(case: dict) -> dict:
             mine = [l for l in labels[started:] if len(l) > 2 and l[1] == k and l[2] == u]
             names = [l[0] for l in mine]
             cancelled = sys.exc_info()[0] is asyncio.CancelledError
-            if "index" not in names and not cancelled:
-                # the cycle ended without reaching drop_toggle: index_resource (or something before
-                # it) raised and the throttler swallowed it, or the throttler skipped the cycle
+            if "index" not in names and "indexFail" not in names and not cancelled:
+                # the cycle of a worker WITHOUT an own toggle ended without index_resource returning
+                # (it raised and the throttler swallowed it, or the throttler skipped the cycle)
+                obslog.append(("index-attempt-failed", k, u))
                 labels.append(["indexFail", k, u, gate.snap()])
+            if "index" not in names and not cancelled:
                 idle.add((k, u))
             if ("pass" in names or "skip" in names) and "handle" not in names and not cancelled:
                 labels.append(["handle", k, u, gate.snap()])   # process_resource_causes ran (no handler matched/left)
@@ -971,8 +988,8 @@ def oracle_gate(case: dict, obs: dict) -> list[tuple[str, dict, dict]]:
                 indexed_once.add((o[1], o[2]))      # the object is gone: nothing of it is left to be indexed
         elif o[0] == "listed-yield":
             listed.add(o[1])
-        elif o[0] == "index-end":
-            indexed_once.add((o[1], o[2]))
+        elif o[0] in ("index-end", "index-attempt-failed"):
+            indexed_once.add((o[1], o[2]))          # a raised / throttled indexing cycle is the attempt (kopf 58a504d)
         elif o[0] == "handler-start":
             missing_kinds = sorted(known - listed)
             missing_objs = sorted(initial - indexed_once)
